@@ -213,7 +213,7 @@ impl<F: FnMut(NodeUpdate<&u64>)> OnUpdateHandler<F> {
 //@ name: run
 //@ as: fn run(&mut self, node: &Node, node_update: NodeUpdateDelayed, now: StabilisationNum)
 //@ cells: previous_update_kind
-//@ rule R8: `self.created_at < now` => `self.created_at.0 < now.0` x1
+//@ stamps: created_at, now
 //@ props: C09
 //@ contract:
 //@|     requires
